@@ -4,13 +4,16 @@
    (the bar the exchange forwards to the per-pair source, order events) are only seen when the whole batch is done.
    So when a strategy handler runs at clock T, the exchange has already matched every bar dated <= T, and an order
    it places can only be matched by bars popped later, whose time is > T unless they were pushed later.
+   On the exchange side (FillTimes.v): every fill carries the time of the bar that produced it, and an order accepted
+   after some point of a history is only ever filled by bars processed after that point -- so if those are all dated
+   later than T, every fill of the order is.
    (b) The dispatcher model has no max_concurrent, hash-seed or repetition input at all: its delivery sequence is a
    function of the sources, the behaviours and the job tie-break; and the exchange model is a function of the
    operation sequence.  That the real dispatcher matches this model for max_concurrent in {1,2,3,50} is what the
    correspondence check of C12 validates; hash seeds / repetitions are checked on sub-processes (C03_partial). *)
 From Coq Require Import ZArith List.
 From Basana Require Import Dispatch.Backtest Dispatch.BacktestProofs Dispatch.MuxProofs.
-From Basana Require Exchange.Model.
+From Basana Require Exchange.Model Exchange.Prims Exchange.Structure Exchange.FillTimes.
 Import ListNotations.
 Open Scope Z_scope.
 
@@ -43,3 +46,16 @@ Theorem C03_exchange_deterministic : forall c s ops1 ops2,
   ops1 = ops2 -> Basana.Exchange.Model.run c s ops1 = Basana.Exchange.Model.run c s ops2.
 Proof. intros c s ops1 ops2 E. rewrite E. reflexivity. Qed.
 Print Assumptions C03_exchange_deterministic.
+
+(* the exchange side of no look-ahead: in any history, an order accepted after the first part [ops1] is only filled by the
+   bars of the second part [ops2]; if those are all dated later than T (which is what the dispatcher guarantees for the
+   operations that follow a handler running at clock T), every one of its fills is dated later than T *)
+Theorem C03_orders_are_filled_only_by_later_bars :
+  forall c initial ops1 ops2 T i o,
+  Structure.cfg_ok c -> Structure.ops_ok ops1 -> Structure.ops_ok ops2 ->
+  (forall p w b, In (Model.OBar p w b) ops2 -> T < w) ->
+  let s1 := Model.run c (Model.init_st initial) ops1 in
+  nth_error (Model.s_orders (Model.run c s1 ops2)) i = Some o -> (length (Model.s_orders s1) <= i)%nat ->
+  Forall (fun f => T < Model.f_when f) (Model.o_fills o).
+Proof. exact FillTimes.fills_only_from_later_bars_reachable. Qed.
+Print Assumptions C03_orders_are_filled_only_by_later_bars.
